@@ -5,8 +5,8 @@ EXTENDS Lease
 ZonesD  == {"p", "c", "g", "s"}
 ParentD == [z \in ZonesD |-> CASE z = "p" -> "root" [] z = "c" -> "p"
                                   [] z = "g" -> "c" [] z = "s" -> "p"]
-ZonesQ  == {"p", "c", "s"}
-ParentQ == [z \in ZonesQ |-> CASE z = "p" -> "root" [] z = "c" -> "p" [] z = "s" -> "p"]
+ZonesQ  == {"p", "c"}
+ParentQ == [z \in ZonesQ |-> CASE z = "p" -> "root" [] z = "c" -> "p"]
 Pub(Z, ns, ds) == [z \in Z |-> [present |-> TRUE, ns |-> ns[z], ds |-> ds[z], ver |-> 1]]
 (* hand-picked initial publications: long parent / short child, short        *)
 (* parent / long child, DS shorter than NS, zero TTL                         *)
